@@ -132,7 +132,15 @@ impl Op {
             let inverted = is_set("inv");
             let mut next_param = parameters.next(def);
             next_param.definition = macro_definition;
-            return Op::op(next_param, ctx)?.handle_inversion(inverted);
+            let mut op = Op::op(next_param, ctx)?.handle_inversion(inverted)?;
+            // Directional omission applies to the invocation as a whole,
+            // not to the individual steps of the macro body
+            for modifier in ["omit_fwd", "omit_inv"] {
+                if is_set(modifier) {
+                    op.params.boolean.insert(modifier);
+                }
+            }
+            return Ok(op);
         }
 
         // A built in operator?
